@@ -1,6 +1,6 @@
 (* C16 — aggregation is faithful: the merged file means the union of its sources. *)
 Require Import Base Extracted Criteria Search AuditGraph DepGraph Resolve Imports Aggregate Witness.
-Require Import ImportsProofs AggregateProofs ResolveProofs ResolveTheorems RecordSets.
+Require Import CriteriaProofs ImportsProofs AggregateProofs ResolveProofs ResolveTheorems RecordSets EmbedProofs.
 Local Open Scope N_scope.
 
 (* per crate, the output audits are exactly the importable audits of the sources,
@@ -51,10 +51,41 @@ Theorem C16_verdict_depends_only_on_the_record_sets :
     (forall name, same_records (store_for s1 name) (store_for s2 name)) ->
     has_errors (resolve inp s2) = has_errors (resolve inp s1).
 Proof. exact verdict_same_records. Qed.
-(* PARTIAL: that an entry's criteria mean the same when closed under the MERGED criteria table as
-   under its own source's table (sources are loaded by the tolerant peer-file parser, so every
-   entry's criteria are defined by its own file, and a differing re-definition is refused by
-   C16_definition_conflict_iff) is exercised on the implementation by the two-stage run. *)
+(* ... and an entry's criteria mean the same under the MERGED criteria table as under its own source's:
+   when the merged table t2 defines every criterion of the source table t1 exactly as the source does
+   (through the renaming rho of positions; [embeds] is the executable form, evaluated per aggregate case),
+   and the configured criteria-map is the same map (keyed by name), the entry imported from the aggregate
+   IS the entry imported from the source — same kind, same localised criteria list, same flags *)
+Theorem C16_entry_means_the_same_in_the_aggregate : forall t1 t2 rho lt cm1 cm2 a,
+  embeds t1 t2 rho = true ->
+  (forall f, f < N.of_nat (ct_len t1) -> map_one lt cm2 (rho f) = map_one lt cm1 f) ->
+  (forall c, In c (au_crit a) -> c < N.of_nat (ct_len t1)) ->
+  import_audit lt t2 cm2 (rename_audit rho a) = import_audit lt t1 cm1 a.
+Proof.
+  intros t1 t2 rho lt cm1 cm2 a He Hm Hl. destruct (embeds_spec t1 t2 rho He) as [A B].
+  exact (import_audit_embed t1 t2 rho A B lt cm1 cm2 Hm a Hl).
+Qed.
+Theorem C16_wildcard_means_the_same_in_the_aggregate : forall t1 t2 rho lt cm1 cm2 w,
+  embeds t1 t2 rho = true ->
+  (forall f, f < N.of_nat (ct_len t1) -> map_one lt cm2 (rho f) = map_one lt cm1 f) ->
+  (forall c, In c (w_crit w) -> c < N.of_nat (ct_len t1)) ->
+  import_wild lt t2 cm2 (rename_wild rho w) = import_wild lt t1 cm1 w.
+Proof.
+  intros t1 t2 rho lt cm1 cm2 w He Hm Hl. destruct (embeds_spec t1 t2 rho He) as [A B].
+  exact (import_wild_embed t1 t2 rho A B lt cm1 cm2 Hm w Hl).
+Qed.
+(* PARTIAL: that the table do_aggregate_audits writes embeds EVERY list of sources (first definition kept, a
+   differing re-definition refused: C16_definition_conflict_iff) is a statement about criteria NAMES and is not
+   proved for all inputs; [embeds] is instead evaluated, on every aggregate case of every run, between each
+   source's table and the table the REAL command wrote (tools/agg_embed.py). *)
+
+(* the embedding hypothesis is satisfiable and not the identity: the source has one criterion (index 2)
+   implying safe-to-deploy; in the merged table it sits at index 3 behind another source's criterion *)
+Definition w_rho (c : N) : N := if N.eqb c 2 then 3 else c.
+Example C16_embedding_nonvacuous :
+  embeds [[1]] [[0]; [1]] w_rho = true /\
+  from_list [[0]; [1]] (map w_rho [2]) = 11 /\ from_list [[1]] [2] = 7.
+Proof. vm_compute. auto. Qed.
 
 Example C16_verdict_nonvacuous :
   has_errors (resolve w_graph w_store_two_peers) = false /\
@@ -80,3 +111,5 @@ Print Assumptions C16_definition_conflict_iff.
 Print Assumptions C16_errors_persist.
 Print Assumptions C16_importing_the_aggregate_gives_the_same_verdict.
 Print Assumptions C16_verdict_depends_only_on_the_record_sets.
+Print Assumptions C16_entry_means_the_same_in_the_aggregate.
+Print Assumptions C16_wildcard_means_the_same_in_the_aggregate.
